@@ -134,6 +134,7 @@ fn main() {
         "C01" => {
             let chk = Check::new("C01", PART, tier, "exploration");
             msgs::run_c01(&chk);
+            record_xt(&chk, "C01");
             chk.finish()
         }
         "C02" => {
@@ -148,6 +149,7 @@ fn main() {
             } else {
                 let chk = Check::new("C02", PART, tier, "exploration");
                 msgs::run_c02(&chk);
+                record_xt(&chk, "C02");
                 race::race_probe(&chk, "C02", if tier == Tier::Thorough { 400 } else { 40 });
                 chk.finish()
             }
@@ -155,6 +157,7 @@ fn main() {
         "C03" => {
             let chk = Check::new("C03", PART, tier, "exploration");
             msgs::run_c03_sweep(&chk);
+            record_xt(&chk, "C03");
             misc::run_c03_scanners(&chk, tier);
             chk.finish()
         }
@@ -171,6 +174,7 @@ fn main() {
         "C06" => {
             let chk = Check::new("C06", PART, tier, "exploration");
             msgs::run_c06(&chk);
+            record_xt(&chk, "C06");
             chk.finish()
         }
         "C07" => {
